@@ -27,6 +27,8 @@ var t0 = time.Unix(1700000000, 0)
 
 // txUniverse: a fixed family of transactions derived from the history seed.  tx i spends either an outside
 // outpoint or outputs of earlier transactions; `ours[j]` marks outputs that the history credits to the wallet.
+// txUniverseSize random transactions, followed by the conflict triple (conflictTriple: a parent and two
+// transactions that double-spend its wallet output).
 type txInfo struct {
 	rec      *wtxmgr.TxRecord
 	ours     []bool
